@@ -137,7 +137,20 @@ func LoadProgram(patterns []string) (*Program, error) {
 				P.ContractFiles = append(P.ContractFiles, m)
 				rel := strings.TrimPrefix(p.PkgPath, ModPath+"/")
 				for _, c := range cs {
-					P.Contracts[rel+"."+c.FuncRef] = c
+					c.Files = []string{m}
+					key := rel + "." + c.FuncRef
+					if prev, ok := P.Contracts[key]; ok {
+						// the same function under contract for several properties: one merged contract
+						prev.Clauses = append(prev.Clauses, c.Clauses...)
+						for k, v := range c.Flags {
+							if _, dup := prev.Flags[k]; !dup {
+								prev.Flags[k] = v
+							}
+						}
+						prev.Files = append(prev.Files, m)
+						continue
+					}
+					P.Contracts[key] = c
 				}
 			}
 		}
